@@ -175,10 +175,14 @@ class Summary:
         self.writes = {}     # (loc, root, cond) -> Witness
         self.rets = set()
         self.hrets = set()
+        # (container parameter, value parameter): the function stores (part
+        # of) the object bound to the second into an object rooted at the first
+        self.pstores = set()
 
     def sig(self):
         return (frozenset((k, w.uncertain) for k, w in self.writes.items()),
-                frozenset(self.rets), frozenset(self.hrets))
+                frozenset(self.rets), frozenset(self.hrets),
+                frozenset(self.pstores))
 
 
 class Effects:
@@ -375,6 +379,61 @@ class FuncCtx:
                 if base is not None:
                     for a in n.args:
                         sf.setdefault(base, []).append((fld, a))
+                self._callee_stores(n)
+            elif isinstance(n, ast.Call):
+                self._callee_stores(n)
+
+    def _callee_stores(self, call):
+        """A repo function that stores one of its arguments into another
+        (Fiber.append(coord, value): value into self) makes the local the
+        container argument is rooted at hold the value argument."""
+        tg = self.ty.resolve(self.f, call)
+        if tg.kind not in ("resolved", "byname"):
+            return
+        for callee in tg.funcs:
+            if not self.eff.in_scope(callee):
+                continue
+            ps = self.eff.summary(callee).pstores
+            if not ps:
+                continue
+            amap = self.argmap(call, callee, tg)
+            for a, b in ps:
+                for ce in amap.get(a, []):
+                    if ce is None or isinstance(ce, tuple):
+                        continue
+                    base, fld = _base_field(ce) if not isinstance(ce, ast.Name) \
+                        else (ce.id, None)
+                    if base is None:
+                        continue
+                    holders = {base}
+                    if isinstance(ce, ast.Subscript):
+                        # an element of a local container: the locals that
+                        # were put into that container are the same objects
+                        holders |= self._element_names(base)
+                    for ve in amap.get(b, []):
+                        if ve is None:
+                            continue
+                        v = ve[1] if isinstance(ve, tuple) else ve
+                        for h in holders:
+                            self.store_facts.setdefault(h, []).append(("payloads", v))
+
+    def _element_names(self, cname):
+        out = set()
+        for n in own_nodes(self.f):
+            if isinstance(n, ast.Assign):
+                for t in n.targets:
+                    if isinstance(t, ast.Name) and t.id == cname:
+                        for x in ast.walk(n.value):
+                            if isinstance(x, ast.List):
+                                out |= {e.id for e in x.elts if isinstance(e, ast.Name)}
+                    if isinstance(t, ast.Subscript) and isinstance(t.value, ast.Name) \
+                            and t.value.id == cname and isinstance(n.value, ast.Name):
+                        out.add(n.value.id)
+            elif isinstance(n, ast.Call) and isinstance(n.func, ast.Attribute) and \
+                    n.func.attr in ("append", "insert") and \
+                    isinstance(n.func.value, ast.Name) and n.func.value.id == cname:
+                out |= {a.id for a in n.args if isinstance(a, ast.Name)}
+        return out
 
     def reach(self, node):
         return plain(self.R(node)) | self.H(node)
@@ -1335,6 +1394,58 @@ class FuncCtx:
         out.hrets = {r for r in out.hrets if r != FRESH}
         if f.is_generator:
             out.rets = {FRESH}
+        out.pstores = self._param_stores()
+        return out
+
+    def _param_stores(self):
+        """(a, b): the function puts (part of) parameter b into the payload
+        list of a fiber rooted at parameter a -- directly (`a.payloads.append
+        (b)`, `a.payloads[i] = b`) or through a callee that does."""
+        f = self.f
+        params = set(f.all_param_names())
+        pairs = []
+
+        def is_payloads(e):
+            return isinstance(e, ast.Attribute) and e.attr == "payloads"
+        for n in own_nodes(f):
+            if isinstance(n, (ast.Assign, ast.AnnAssign)) and n.value is not None:
+                targets = n.targets if isinstance(n, ast.Assign) else [n.target]
+                for t in targets:
+                    if isinstance(t, ast.Subscript) and is_payloads(t.value):
+                        pairs.append((t.value.value, n.value))
+            elif isinstance(n, ast.Call) and isinstance(n.func, ast.Attribute):
+                tg = self.ty.resolve(f, n)
+                if n.func.attr in ("append", "insert", "extend") and \
+                        tg.kind in ("external", "ambiguous") and is_payloads(n.func.value):
+                    for a in n.args:
+                        pairs.append((n.func.value.value, a))
+                if tg.kind in ("resolved", "byname"):
+                    for callee in tg.funcs:
+                        if not self.eff.in_scope(callee) or callee is f:
+                            continue
+                        ps = self.eff.summary(callee).pstores
+                        if not ps:
+                            continue
+                        amap = self.argmap(n, callee, tg)
+                        for a, b in ps:
+                            for ce in amap.get(a, []):
+                                for ve in amap.get(b, []):
+                                    if ce is None or ve is None or \
+                                            isinstance(ce, tuple):
+                                        continue
+                                    pairs.append((ce, ve[1] if isinstance(ve, tuple) else ve))
+        out = set()
+        for ce, ve in pairs:
+            A = {strip(r) for r in self.R(ce)}
+            A = {r[1] for r in A if r[0] == "p" and r[1] in params}
+            if not A:
+                continue
+            B = {strip(r) for r in self.reach(ve)}
+            B = {r[1] for r in B if r[0] == "p" and r[1] in params}
+            for a in A:
+                for b in B:
+                    if a != b:
+                        out.add((a, b))
         return out
 
     def _for_targets(self, t, node):
